@@ -27,7 +27,11 @@ Typed ==
       T("chan int", "chan", FALSE, "chan int"), T("<-chan int", "rchan", FALSE, "<-chan int"),
       T("chan<- int", "schan", FALSE, "chan<- int"),
       T("I", "iface", TRUE, "interface{M()}"), T("interface{}", "iface", FALSE, "interface{}"),
-      T("TI", "struct", TRUE, "struct{B int}") }
+      T("TI", "struct", TRUE, "struct{B int}"),
+      \* defined types over composite types, one of them through a second definition (type Sink2 Sink):
+      \* the rules speak of the underlying type, whatever the depth of the definition
+      T("Sink", "schan", TRUE, "chan<- int"), T("Sink2", "schan", TRUE, "chan<- int"), T("Src2", "rchan", TRUE, "<-chan int"),
+      T("MySl", "slice", TRUE, "[]int"), T("MyMap", "map", TRUE, "map[string]int"), T("PS", "ptr", TRUE, "*S") }
 
 (* untyped constants: the literal stands for its value class                      *)
 Untyped ==
@@ -105,7 +109,7 @@ ConvertibleTo(v, t) ==
          \/ (v.k \in {"int", "float"} /\ t.k \in {"int", "float"})              \* numeric
          \/ (v.k = "int" /\ t.k = "string")                                     \* string(int)
          \/ (v.k = "chan" /\ t.k \in {"rchan", "schan"})
-         \/ (v.n = "[]int" /\ t.n = "[2]int")                                   \* slice to array (go1.20)
+         \/ (v.u = "[]int" /\ t.n = "[2]int")                                   \* slice to array (go1.20), also from a defined slice type
 
 -------------------------------------------------------------------------------
 (* Contexts.  A case is [ctx, a, b]: the context and its (up to) two operand      *)
@@ -146,7 +150,7 @@ Verdict(c) ==
       [] c.ctx = "append" -> IF AssignableTo(b, CHOOSE t \in Typed : t.n = "int") THEN "ok" ELSE AssignReason(b, CHOOSE t \in Typed : t.n = "int")
       [] c.ctx = "index" -> IF a.k \in {"string", "slice", "array"} THEN "ok" ELSE IF a.k = "map" THEN "map key type" ELSE "not indexable"
       [] c.ctx = "deref" -> IF a.k = "ptr" THEN "ok" ELSE "invalid indirect"
-      [] c.ctx = "field-A" -> IF a.n \in {"S", "*S"} THEN "ok" ELSE "undefined field"
+      [] c.ctx = "field-A" -> IF a.n \in {"S", "*S", "PS"} THEN "ok" ELSE "undefined field"      \* x.f through a defined pointer type too
       [] c.ctx = "method-M" -> IF a.n \in {"TI", "I"} THEN "ok" ELSE "undefined method"
       [] c.ctx = "neg" -> IF a.k \in {"int", "float"} THEN "ok" ELSE "operator not defined"
       [] c.ctx = "not" -> IF a.k = "bool" THEN "ok" ELSE "operator not defined"
